@@ -572,6 +572,18 @@ func (r *run) syncEvent(ev string, obj value) {
 		r.syncIDs[p] = id
 	}
 	r.syncLog = append(r.syncLog, syncEv{ev: ev, obj: id, ptr: p})
+	if r.tracing {
+		switch ev {
+		case "Lock":
+			r.traceEvent("acqW:" + r.nameOf(p))
+		case "RLock":
+			r.traceEvent("acqR:" + r.nameOf(p))
+		case "Unlock":
+			r.traceEvent("relW:" + r.nameOf(p))
+		case "RUnlock":
+			r.traceEvent("relR:" + r.nameOf(p))
+		}
+	}
 	switch ev {
 	case "Lock":
 		if r.held[p] != 0 {
@@ -896,5 +908,81 @@ func init() {
 		rp, ok1 := recv.v.(*value)
 		ep, ok2 := cl.Env[0].(*value)
 		return mkBool(ok1 && ok2 && rp == ep)
+	}
+}
+
+// ---------------------------------------------------------------- trace mode (C11)
+
+func ptrOf(v value) *value {
+	switch a := v.(type) {
+	case iface:
+		if q, ok := a.v.(*value); ok {
+			return q
+		}
+		if inner, ok := a.v.(iface); ok {
+			return ptrOf(inner)
+		}
+	case *value:
+		return a
+	}
+	return nil
+}
+
+func init() {
+	apiIntrinsics["vName"] = func(fr *frame, args []value) value {
+		if p := ptrOf(args[0]); p != nil {
+			fr.r.names[p] = concreteString(args[1], "name")
+		}
+		return nil
+	}
+	apiIntrinsics["vWatch"] = func(fr *frame, args []value) value {
+		if p := ptrOf(args[0]); p != nil {
+			fr.r.watch[p] = concreteString(args[1], "location")
+		}
+		return nil
+	}
+	apiIntrinsics["vWatchMap"] = func(fr *frame, args []value) value {
+		if m, ok := args[0].(iface).v.(*smap); ok && m != nil {
+			fr.r.watchMap[m] = concreteString(args[1], "location")
+		}
+		return nil
+	}
+	apiIntrinsics["vAccess"] = func(fr *frame, args []value) value {
+		fr.r.traceEvent(concreteString(args[0], "kind") + ":" + concreteString(args[1], "location"))
+		return nil
+	}
+	apiIntrinsics["vTraceReset"] = func(fr *frame, args []value) value {
+		fr.r.trace = nil
+		fr.r.tracing = true
+		return nil
+	}
+	apiIntrinsics["vTraceEmit"] = func(fr *frame, args []value) value {
+		op := concreteString(args[0], "operation name")
+		fr.r.tracing = false
+		for p, mode := range fr.r.held {
+			if mode != 0 {
+				fr.r.violation("lock", "C11.nothing-held-at-return", "operation "+op+" returns while holding "+fr.r.nameOf(p))
+			}
+		}
+		fr.r.traces = append(fr.r.traces, traceRec{Op: op, Events: append([]string(nil), fr.r.trace...)})
+		return nil
+	}
+}
+
+type traceRec struct {
+	Op     string   `json:"op"`
+	Events []string `json:"events"`
+}
+
+func (r *run) nameOf(p *value) string {
+	if n, ok := r.names[p]; ok {
+		return n
+	}
+	return fmt.Sprintf("mutex#%d", r.syncIDs[p])
+}
+
+func (r *run) traceEvent(e string) {
+	if r.tracing {
+		r.trace = append(r.trace, e)
 	}
 }
